@@ -439,9 +439,8 @@ func (e *Endpoint) DialAddressTimeout(a memberlist.Address, timeout time.Duratio
 		}
 		time.Sleep(wait)
 		backoff *= 2
-		if e.closed.Load() {
-			return nil, &net.OpError{Op: "dial", Net: "tcp", Err: net.ErrClosed}
-		}
+		// (as with a real socket, shutting the dialling node's listeners down does not abort a connect
+		// that is already in progress: it runs until its own timeout)
 	}
 	n.mu.Lock()
 	n.connSeq++
